@@ -104,6 +104,7 @@ theorem wt_declTys (vtys : List CSem.Ty) (ret : CSem.Ty) (st : Stmt) : ∀ (lb l
   | continue_ => intro lb lc nd nd' h k t hk; simp [declTys] at hk
   | case_ u => intro lb lc nd nd' h k t hk; simp [declTys] at hk
   | default_ => intro lb lc nd nd' h k t hk; simp [declTys] at hk
+  | call dst rt fn args => intro lb lc nd nd' h k t hk; simp [declTys] at hk
   | switch_ e b ihb =>
     intro lb lc nd nd' h k t hk
     simp only [Stmt.wt] at h
